@@ -51,6 +51,10 @@ def run(ctx):
     s = Sib(ctx)
     s.multislater_restricted_vs_unrestricted()
     s.multislater_reference_pairing()
+    # the multislater trial takes its local energy from the finite-difference machinery of wave_function_auto: the
+    # one-body normal-ordering term its builder stores is typed with the index kinds of C15
+    from . import c15 as _c15
+    _c15.builders(ctx, only_auto=True)
 
 
 def _assign_targets(fn_node, name: str):
